@@ -941,6 +941,8 @@ func runC15(p *Prog, r *Report) {
 	resolvePackageRelRule(p, r, "C15.R10")
 	converterArmInventoryRule(p, r, "C15.R11")
 	generateNoOwnErrorsRule(p, r, "C15.R12")
+	allocatorContractRule(p, r, "C15.R13")
+	outputPackageErrorsIgnoredRule(p, r, "C15.R14")
 }
 
 // c15R2b: keys of the rendered map are the fileManager keys, which are getOutputDir(conv).
@@ -1285,6 +1287,7 @@ func runC16(p *Prog, r *Report) {
 	flagsNotRewrittenRule(p, r, "C16.R7")
 	tagsOpaqueRule(p, r, "C16.R8")
 	argsUnmodifiedRule(p, r, "C16.R9")
+	outputPackageErrorsIgnoredRule(p, r, "C16.R10")
 }
 
 func c16R1(p *Prog, r *Report) {
